@@ -232,9 +232,24 @@ def gen_history(rng, cfg, pool, text, nops, weights=None, allow_uncrawled_pages=
         return bool(text) and all(l in text for l in lrus) and rng.random() < 0.7
 
     guard = 0
+    came_off = None  # a prefix that has just lost its webentity: a page at or below it comes back next, now and then
     while len(ops) < nops and guard < nops * 20:
         guard += 1
         k = rng.choices(kinds, wts)[0]
+        if came_off is not None:
+            pre, came_off = came_off, None
+            if rng.random() < 0.45 and w.get("add_page", 0) > 0:
+                known = sorted(p_ for p_ in m.pages if p_.startswith(pre))
+                if known and rng.random() < 0.6:
+                    l = rng.choice(known)  # a known page submitted again (often as crawled) right after the detachment
+                else:
+                    l = pre + rng.choice(PATHS)
+                if wellformed(l) and rules_ok(l):
+                    c = rng.random() < 0.6
+                    ops.append({"op": "add_page", "lru": l, "crawled": c, "as_str": astr([l])})
+                    m.add_page(l, c)
+                    m.take_groups()
+                    continue
         if k == "add_page":
             l = pick()
             c = rng.random() < 0.35
@@ -352,6 +367,7 @@ def gen_history(rng, cfg, pool, text, nops, weights=None, allow_uncrawled_pages=
             ops.append({"op": "delete", "of": of, "prefixes": ps, "unchecked": rng.random() < 0.2})
             for p in ps:
                 del m.we[p]
+            came_off = rng.choice(ps)
         elif k == "addp" and m.we:
             of = rng.choice(sorted(m.we))
             p = some_prefix(rng, pick(), 1, 5)
@@ -363,6 +379,7 @@ def gen_history(rng, cfg, pool, text, nops, weights=None, allow_uncrawled_pages=
             p = rng.choice(sorted(m.we))
             ops.append({"op": "rmp", "prefix": p, "with_id": rng.random() < 0.7})
             del m.we[p]
+            came_off = p
         elif k == "mvp" and len(m.we) > 0:
             p = rng.choice(sorted(m.we))
             of = rng.choice(sorted(m.we))
